@@ -35,7 +35,7 @@ from . import net
 
 PROXY_HOST, PROXY_PORT = "proxy.test", 3128
 HOSTS = {"name": "origin.test", "ipv4": "10.0.0.7", "ipv6": "[fd00::7]"}   # as written in the URL
-PARTY_DEADLINE = 20.0       # seconds a party thread may wait for bytes before it gives up
+PARTY_DEADLINE = 30.0       # seconds a party thread may wait for bytes before it gives up
 GARBAGE = b"SSH-2.0-OpenSSH_9.6\r\n\r\n"
 REASONS = {"200": "Connection established", "403": "Forbidden", "407": "Proxy Authentication Required",
            "502": "Bad Gateway"}
@@ -331,7 +331,7 @@ class ProxyNet:
             t.join(2.0)
         return False
 
-    def settle(self, deadline=10.0):
+    def settle(self, deadline=30.0):
         """Wait until every party thread is parked at a message boundary or has finished."""
         t0 = time.monotonic()
         while True:
